@@ -61,7 +61,8 @@ type provSpec struct {
 	Six     bool   `json:"six"`     // the six of WithCustomEndpoints are set by that one option
 	Variant string `json:"variant"` // custom paths are /custom/<field>-<variant>
 	Fail    bool   `json:"fail"`    // a final invalid option makes NewProvider return an error
-	Extra   string `json:"extra"`   // "", cors, claims, interceptor, hostissuer, fwdissuer, insecure
+	Extra   string `json:"extra"`   // "", cors, claims, interceptor, hostissuer, fwdissuer
+	Flags   uint8  `json:"flags"`   // op.Config switches turned OFF: 1 S256, 2 post, 4 private_key_jwt, 8 refresh_token, 16 request object
 }
 
 func customPath(field, variant string) string {
@@ -126,6 +127,7 @@ var provCatalogue = func() []provSpec {
 		provSpec{Name: "custom-all", Mask: 0xff, Variant: "b"},
 		provSpec{Name: "custom-then-error", Mask: 1<<0 | 1<<1, Variant: "a", Fail: true},
 		provSpec{Name: "defaults+cors+claims", Extra: "cors"},
+		provSpec{Name: "defaults+minimal-config", Flags: 0x1f},
 	)
 	return c
 }()
@@ -136,6 +138,10 @@ func randProvSpec(r *rand.Rand) provSpec {
 		p.Extra = []string{"", "", "cors", "claims", "interceptor", "hostissuer", "fwdissuer"}[r.IntN(7)]
 		if p.Extra != "" {
 			p.Name += "+" + p.Extra
+		}
+		if r.IntN(3) == 0 {
+			p.Flags = uint8(1 + r.IntN(31))
+			p.Name += fmt.Sprintf("+flags%02x", p.Flags)
 		}
 		return p
 	}
@@ -148,7 +154,13 @@ func randProvSpec(r *rand.Rand) provSpec {
 		p.Fail = true
 	}
 	p.Extra = []string{"", "", "", "cors", "claims", "interceptor"}[r.IntN(6)]
+	if r.IntN(3) == 0 {
+		p.Flags = uint8(r.IntN(32))
+	}
 	p.Name = fmt.Sprintf("custom-%02x-%s", p.Mask, p.Variant)
+	if p.Flags != 0 {
+		p.Name += fmt.Sprintf("-flags%02x", p.Flags)
+	}
 	if p.Six {
 		p.Name += "-six"
 	}
@@ -443,6 +455,11 @@ func (c *isoCase) buildProvider(ps provSpec) {
 		cfg.SupportedClaims = []string{"sub", "c20_custom_claim"}
 		cfg.SupportedScopes = []string{"openid", "c20_custom_scope"}
 	}
+	cfg.CodeMethodS256 = ps.Flags&1 == 0
+	cfg.AuthMethodPost = ps.Flags&2 == 0
+	cfg.AuthMethodPrivateKeyJWT = ps.Flags&4 == 0
+	cfg.GrantTypeRefreshToken = ps.Flags&8 == 0
+	cfg.RequestObjectSupported = ps.Flags&16 == 0
 	cfgp := &cfg
 	c.w.opConfig(name+".config", cfgp)
 	opts := []op.Option{op.WithLogger(opdrv.Discard)}
@@ -1118,7 +1135,7 @@ func runScenario(run *ev.Run, idx int, specs []spec) {
 // quickProv / the stride over client pairs: the quick tier enumerates every ordered pair of a 7-element sub-catalogue
 // of provider option sets and every 3rd ordered pair of client-side option sets; thorough enumerates every ordered
 // pair of both catalogues and every ordered triple of provider option sets.
-var quickProv = []int{0, 1, 2, 8, 9, 10, 11}
+var quickProv = []int{0, 1, 2, 8, 9, 10, 11, 13}
 
 func isoCounts(run *ev.Run) (provPairs, cliPairs, provTriples int) {
 	np, nc := len(provCatalogue), len(cliCatalogue)
